@@ -64,6 +64,13 @@ CHECKS = {
         "Says nothing off the lattice. Reference: rotation formula in mc/props/c08.py.",
         "DESIGN.md 5 C08",
     ),
+    "C14": (
+        "exploration",
+        "exhaustive enumeration of a finite table: hexahedra/quadrilaterals x all 24 (4) rotational renumberings x 8 rigid frames x 4 scale factors x with/without face neighbour, metamorphic relations between evaluations of the real quality function; stretch family x 3 directions",
+        "Quality must be equal under renumbering and rigid motion (rel 1e-6), under scaling (rel 1e-3 + 1e-3), non-decreasing and direction-independent for a cube stretched along one direction.",
+        "Relations between executions, no hand-written expected values. Shapes from a fixed table; lattice only.",
+        "DESIGN.md 5 C14",
+    ),
     "C02": (
         "model_checking",
         "stateless model checking of the implementation: choice-point explorer over set iteration orders (iterative deviation bounding) x exhaustive insertion orders / corner numberings / chop placements of small lattice assemblies, edge-family reference model",
